@@ -197,6 +197,12 @@ def r17_1(ctx):
                     ok = rec and any(sp_ in txt for sp_ in spell) and got <= {"Object"}
                     if alt == "NonNullable":
                         ok = ok and "is_some()" in txt and ".filter(" in txt
+                    else:
+                        # the argument's types are taken over whole: nothing filters or intersects them with another set
+                        narrowing = [w for w in (".filter(", ".retain(", ".contains(", ".intersection(", ".difference(", ".remove(", ".swap_remove(", ".shift_remove(") if w in txt]
+                        if narrowing:
+                            ok = False
+                            txt = "the argument's types are narrowed (%s): a constructor the type admits is lost — %s" % (narrowing[0], txt)
                     r.ob(key + " -> its %s type argument%s" % ("first" if which == "first" else "second", " without null" if alt == "NonNullable" else ""), ok, C.mloc(rt, a), txt[:160])
                     continue
                 want = table.get(alt)
